@@ -92,7 +92,28 @@ type genCtx struct {
 
 func appKey(parts []string) string { return strings.Join(parts, " :: ") }
 
+// genPrim draws a built-in type. The keywords are case-insensitive in the grammar (fixtures write `String`,
+// `Date`): a quarter of the spellings are capitalised, upper-cased or mixed.
 func genPrim(t *rapid.T) TExpr {
+	e := genPrimLower(t)
+	switch rapid.IntRange(0, 11).Draw(t, "primcase") {
+	case 0:
+		e.spelling = strings.ToUpper(e.spelling[:1]) + e.spelling[1:]
+	case 1:
+		e.spelling = strings.ToUpper(e.spelling)
+	case 2:
+		b := []byte(e.spelling)
+		for i := range b {
+			if i%2 == 1 {
+				b[i] = strings.ToUpper(string(b[i]))[0]
+			}
+		}
+		e.spelling = string(b)
+	}
+	return e
+}
+
+func genPrimLower(t *rapid.T) TExpr {
 	switch rapid.IntRange(0, 15).Draw(t, "prim") {
 	case 0:
 		return TExpr{Prim: "INT", spelling: "int"}
